@@ -9,7 +9,6 @@ import (
 	"math/big"
 	"os"
 	"path/filepath"
-	"sort"
 	"strings"
 
 	"github.com/LemoFoundationLtd/lemochain-core/chain/account"
@@ -35,7 +34,7 @@ var (
 	assetX   = common.HexToHash("0xa1") // asset code issued by the account
 	assetID  = common.HexToHash("0xb1") // asset id whose metadata the account holds
 	equityID = common.HexToHash("0xe1") // asset id the account holds equity of
-	codes    = map[string]types.Code{} // per behaviour, see newCodes
+	codes    = map[string]types.Code{}  // per behaviour, see newCodes
 	signers  = map[string]types.Signers{}
 	profKey1 = types.CandidateKeyIsCandidate
 	profKey2 = types.CandidateKeyHost
@@ -209,11 +208,12 @@ func project(acc types.AccountAccessor) map[string]interface{} {
 const dbReuse = 500
 
 type adapter struct {
-	dir   string
-	n     int
-	db    protocol.ChainDB
-	am    *account.Manager
-	snaps []int // real revision ids of the live spec revisions
+	dir    string
+	n      int
+	db     protocol.ChainDB
+	am     *account.Manager
+	snaps  []int       // real revision ids of the live spec revisions
+	parent common.Hash // the block the manager is based on
 }
 
 func (a *adapter) closeDB() {
@@ -371,6 +371,7 @@ func (a *adapter) setupBase(st tla.Value) error {
 		return fmt.Errorf("base save: %v", err)
 	}
 	a.am.Reset(h)
+	a.parent = h
 	return nil
 }
 
@@ -389,6 +390,7 @@ func (a *adapter) Reset(init map[string]tla.Value) (engine.Fields, error) {
 	newCodes(a.n)
 	a.am = account.NewManager(common.Hash{}, a.db)
 	a.snaps = nil
+	a.parent = common.Hash{}
 	if st, ok := init["st"]; ok {
 		if err := a.setupBase(st); err != nil {
 			return nil, err
@@ -421,13 +423,31 @@ func (a *adapter) Apply(s engine.Step) (engine.Fields, error) {
 		a.snaps = a.snaps[:i-1]
 		a.am.RevertToSnapshot(id) // a panic is caught and logged by the engine
 		return a.fields(engine.Fields{"id": id}), nil
+	case "Seal":
+		// finish the block the way BlockAssembler.Finalize does, publish its change logs ...
+		a.am.MergeChangeLogs()
+		ferr := a.am.Finalise()
+		logs := a.am.GetChangeLogs()
+		kinds := make([]string, 0, len(logs))
+		for _, l := range logs {
+			kinds = append(kinds, addrName(l.Address)+":"+l.LogType.String())
+		}
+		f := a.fields(engine.Fields{"err": errStr(ferr), "pub": kinds})
+		// ... and let a manager that only has the parent state replay them (Manager.RebuildAll), then finalise
+		blk := &types.Block{ChangeLogs: logs}
+		blk.SetHeader(&types.Header{ParentHash: a.parent, Height: 1})
+		rerr := a.am.RebuildAll(blk)
+		if rerr == nil {
+			rerr = a.am.Finalise()
+		}
+		f["rerr"] = errStr(rerr)
+		f["redo"] = a.obs()
+		return f, nil
 	}
 	return nil, fmt.Errorf("unknown action %s", s.Act.Name)
 }
 
 func (a *adapter) Close() { a.closeDB() }
-
-var _ = sort.Strings
 
 func init() {
 	engine.Register("journal", func() engine.Adapter { return &adapter{} })
